@@ -140,6 +140,9 @@ pub struct Finding {
     pub limits: BTreeMap<String, u64>,
     #[serde(default)]
     pub commit: Option<String>,
+    /// Other properties whose checks can meet the same failure signature.
+    #[serde(default)]
+    pub also_properties: Vec<String>,
     /// The witness kills or hangs the process: replay it in a child process (supervisor does that).
     #[serde(default)]
     pub isolate: bool,
@@ -151,7 +154,7 @@ impl Finding {
             Some(prefix) => f.clause.starts_with(prefix),
             None => self.clause == f.clause,
         };
-        self.property == property
+        (self.property == property || self.also_properties.iter().any(|p| p == property))
             && clause_ok
             && self.requires_tags.iter().all(|t| f.tags.contains(t))
             && self
